@@ -1495,6 +1495,27 @@ type revertRec struct {
 	lost      bool
 }
 
+// failedWriteRetained is the general form of D23: at sector s one of two replicas holds the
+// value of a write that was reported as FAILED to the initiator (a replica applied it fully or,
+// after a short write, partly, and was detached for it). Failed writes do not advance the
+// revision counter, so when the replicas meet again with equal counters and equal snapshot
+// names the file sync is skipped and the difference stays.
+func (cr *clRun) failedWriteRetained(s int64, a, b []byte) *ioOp {
+	if s < 0 || int64(len(a)) < (s+1)*sect || int64(len(b)) < (s+1)*sect {
+		return nil
+	}
+	wa, wb := binary.LittleEndian.Uint64(a[s*sect:]), binary.LittleEndian.Uint64(b[s*sect:])
+	for _, o := range cr.ios {
+		if o.data == nil || o.acked || !o.done || o.n == 0 || !(o.off <= s*sect && s*sect < o.off+o.n) {
+			continue
+		}
+		if w := stampWord(o.idx, s); wa == w || wb == w {
+			return o
+		}
+	}
+	return nil
+}
+
 func (cr *clRun) d20Note(w *ioOp) string {
 	return fmt.Sprintf(" [write %d was acknowledged with %d RW holder(s) of %d attached replicas, the rest of its majority was rebuilding; a cold start followed]", w.idx, w.rwHolders, w.attachedN)
 }
